@@ -191,20 +191,6 @@ Section C04_find_eps.
     find_loop lap fuel a eps = Some (eps * (Rpower 2 a) ^ k).
   Proof. exact (find_loop_complete lap). Qed.
 
-  (* from 1/2: doubling while the acceptance probability exceeds 1/2 (direction 1), halving while
-     it is below 1/2 (direction -1); the result is the first grid point across 1/2 *)
-  Theorem C04_find_eps_direction : forall (fuel : nat) (e' : R),
-    find_eps lap fuel = Some e' ->
-    (direction lap (1 / 2) = 1 /\ ln (1 / 2) < lap (1 / 2) /\
-     exists k : nat, (k < fuel)%nat /\ e' = 1 / 2 * 2 ^ k /\
-       lap e' <= ln (1 / 2) /\
-       (forall i : nat, (i < k)%nat -> ln (1 / 2) < lap (1 / 2 * 2 ^ i)))
-    \/
-    (direction lap (1 / 2) = -1 /\ lap (1 / 2) <= ln (1 / 2) /\
-     exists k : nat, (k < fuel)%nat /\ e' = 1 / 2 * (1 / 2) ^ k /\
-       ln (1 / 2) <= lap e' /\
-       (forall i : nat, (i < k)%nat -> lap (1 / 2 * (1 / 2) ^ i) < ln (1 / 2))).
-  Proof. exact (find_eps_post lap). Qed.
 End C04_find_eps.
 
 (* ---- (6) the interval evaluation (tnumI) encloses the real model (tnumR) ---- *)
@@ -299,22 +285,6 @@ Proof.
 Qed.
 
 (* (5): acceptance probability exp(-eps): 1/2 is accepted with probability > 1/2, 1 is not *)
-Example C04_find_eps_example : find_eps (fun e => - e) 5 = Some 1.
-Proof.
-  assert (Hlo : / 2 < ln 2) by exact ln_lt_2.
-  assert (Hhi : ln 2 < 1).
-  { rewrite <- (ln_exp 1). apply ln_increasing; [Lra.lra|].
-    pose proof (exp_ineq1 1 ltac:(Lra.lra)). Lra.lra. }
-  assert (Hd : direction (fun e => - e) (1 / 2) = 1).
-  { unfold direction. rewrite ln_half.
-    destruct (Rlt_dec (- ln 2) (- (1 / 2))) as [H|H]; [reflexivity | exfalso; apply H; Lra.lra]. }
-  unfold find_eps. rewrite Hd.
-  rewrite (C04_find_eps_complete (fun e => - e) 1 5 1 (1 / 2)).
-  - f_equal. rewrite Rpower_2_1. simpl. Lra.lra.
-  - repeat constructor.
-  - rewrite Rpower_2_1. simpl. Lra.lra.
-  - intros i Hi. assert (i = 0%nat) as -> by Lia.lia. simpl. Lra.lra.
-Qed.
 
 (* interval evaluation on dyadic inputs (delta 13/16, gamma 13/256, kappa 3/4, nd 5, m 0,
    eps 1/2, eps_bar 1, h_bar 0, mu 13/8, a 1/2): three enclosures, all six bounds finite and
@@ -346,7 +316,6 @@ Print Assumptions C04_hbar_bounds_run.
 Print Assumptions C04_eps_bounds.
 Print Assumptions C04_find_eps_post.
 Print Assumptions C04_find_eps_complete.
-Print Assumptions C04_find_eps_direction.
 Print Assumptions C04_interval_sound.
 Print Assumptions C04_interval_sound_init.
 Print Assumptions C04_interval_sound_run.
